@@ -415,6 +415,13 @@ def _task(task):
             if not quick:
                 check_foreign(res, fexp, serial, little, names,
                               [(0, 10, Var('s', 'a')), (2, 11, Var('u', 5))])
+            if exp['type'] != 1:
+                # flag bits on returns, errors and signals: the library's
+                # constructors never set them, other implementations do
+                # (libdbus sends every reply with NO_REPLY_EXPECTED)
+                for fl in (1, 2, 3):
+                    check_foreign(res, dict(fexp, flags=fl), serial, little,
+                                  names, [])
         if n % 200 == 1:
             res.sample({'type': exp['type'], 'flags': exp['flags'],
                         'fields': exp['fields'], 'signature': exp['sig'],
